@@ -100,7 +100,7 @@ let aval_s (v : aval) len_of =
 (* the abstract (spec-level) line of an op result *)
 let spec_line (name : string) (a : aout) : string =
   match a with
-  | AStatus s -> name ^ " " ^ status_s s
+  | AStatus s -> if name = "scan" then Printf.sprintf "scan %s n=0 t=[ ]" (status_s s) else name ^ " " ^ status_s s
   | APut s -> name ^ " " ^ status_s s
   | AGet (s, Some v) ->
     if v.av_inline then Printf.sprintf "get OK w=%s len=8" (word_of_bytes v.av_bytes)
@@ -237,6 +237,22 @@ let () =
                   | Some cur -> not (N.eqb cur ver) | None -> true) nv
             | None -> false) in
         printf_m "%s %s n=%d cov=%s det=%s nvn=%d put=%s" opn (status_s status) nres (b2s cov) (b2s det) (List.length nv) ps
+      | "putinfo" :: s :: k :: v :: _ ->
+        let sname = bytes_of_hex s and k = bytes_of_hex k and v = bytes_of_hex v in
+        let tree_of () = match find_storage !st sname with
+          | Some (Some sid) -> trees_get !st.sy_trees sid | _ -> None in
+        let leaves_of tr = List.concat_map (fun (_, t) -> bt_leaves t) tr.t_layers in
+        let before = (match tree_of () with Some tr -> leaves_of tr | None -> []) in
+        let existed = (match exec !st (OGet (sname, k)) with (_, RGet g) -> g.go_status = St_OK | _ -> false) in
+        (match run (OPut (sname, k, v, n_of_int 1, false, false)) with
+         | RPut po ->
+           let after = (match tree_of () with Some tr -> leaves_of tr | None -> []) in
+           let changed = List.length (List.filter (fun l ->
+               List.exists (fun l' -> N.eqb l'.lf_id l.lf_id && not (N.eqb l'.lf_ver l.lf_ver)) after) before) in
+           let split = (match po.po_info with Some i -> i.pi_created <> None | None -> false) in
+           printf_m "putinfo %s existed=%s changed=%d split=%s ok=1" (status_s po.po_status) (b2s existed) changed (b2s split)
+         | RStatus stt -> printf_m "putinfo %s existed=0 changed=0 split=0 ok=1" (status_s stt)
+         | _ -> print_endline "putinfo STUCK")
       | "dump" :: s :: _ ->
         (match find_storage !st (bytes_of_hex s) with
          | Some (Some sid) ->
@@ -249,5 +265,15 @@ let () =
               print_endline (Buffer.contents b)
             | None -> print_endline "dump STUCK")
          | _ -> print_endline "dump none")
-      | "mem" :: _ -> print_endline "mem ?"
+      | "mem" :: s :: _ ->
+        (match find_storage !st (bytes_of_hex s) with
+         | Some (Some sid) ->
+           (match trees_get !st.sy_trees sid with
+            | Some tr ->
+              let show l = "mem [" ^ String.concat "" (List.map (fun ((n, u), r) ->
+                  Printf.sprintf " %d:%d:%d" (int_of_n n) (int_of_n u) (int_of_n r)) l) ^ " ]" in
+              Stdlib.print_endline ("S " ^ show (shape_stats tr));
+              print_endline (show (mem_usage tr))
+            | None -> print_endline "mem STUCK")
+         | _ -> print_endline "mem [ ]")
       | _ -> print_endline "?") lines
